@@ -345,8 +345,9 @@ def PktOK (id : Int) : Prop := flow id < F ∧ size id ≤ Lmax
 /-- gaps are not negative, packets are as above -/
 def WorkOK (l : List (ℚ × Int)) : Prop := ∀ x ∈ l, 0 ≤ x.1 ∧ PktOK flow F size Lmax x.2
 
-/-- `weights` names exactly the classes `0 … F-1`, each once, in any order, with positive weights -/
-def FlowsOK : Prop := (cfg.weights.map (·.1)).Perm (List.range F) ∧ ∀ e ∈ cfg.weights, 0 < e.2
+/-- `weights` names exactly the classes `0 … F-1`, each once, in any order, with positive weights; `flow2class` is the
+identity -/
+def FlowsOK : Prop := (cfg.weights.map (·.1)).Perm (List.range F) ∧ (∀ e ∈ cfg.weights, 0 < e.2) ∧ cfg.flowMap = none
 
 /-- what the phase of `run` says about the configuration -/
 def RunA (a : A) (now : ℚ) : RPhase → Prop
